@@ -379,8 +379,17 @@ std::string run_case(const std::vector<std::string>& w)
       else if (tok.rfind("order:", 0) == 0) { for (auto& x : vf::split(tok.substr(6), ',')) defOrder.push_back(std::stoi(x)); }
    }
    // private HOME for the argument file; environment variable named after the program
-   const char* workdir = ::getenv("VERIF_WORK");
-   std::string home = std::string(workdir ? workdir : ".") + "/home";
+   // (one directory per harness process: checks of different properties may run at the same time)
+   static const std::string procdir = [] {
+      const char* w = ::getenv("VERIF_WORK");
+      std::string d = std::string(w ? w : ".");
+      ::mkdir(d.c_str(), 0755);
+      d += "/p" + std::to_string(::getpid());
+      ::mkdir(d.c_str(), 0755);
+      return d;
+   }();
+   const char* workdir = procdir.c_str();
+   std::string home = std::string(workdir) + "/home";
    ::mkdir(home.c_str(), 0755);
    ::mkdir((home + "/.progargs").c_str(), 0755);
    ::setenv("HOME", home.c_str(), 1);
@@ -550,4 +559,12 @@ std::string run_case(const std::vector<std::string>& w)
 
 } // namespace
 
-int main(int argc, char** argv) { return vf::main_loop(argc, argv, run_case); }
+int main(int argc, char** argv)
+{
+   const int rc = vf::main_loop(argc, argv, run_case);
+   // remove the per-process scratch directory
+   const char* w = ::getenv("VERIF_WORK");
+   std::error_code ec;
+   std::filesystem::remove_all(std::string(w ? w : ".") + "/p" + std::to_string(::getpid()), ec);
+   return rc;
+}
